@@ -252,11 +252,15 @@ func workerMain(args []string) int {
 	}
 	var runStart atomic.Int64
 	var runIdx atomic.Int64
+	wd := plan.WatchdogS
+	if wd == 0 {
+		wd = 900
+	}
 	go func() {
 		for {
 			time.Sleep(2 * time.Second)
-			if st := runStart.Load(); st != 0 && time.Now().Unix()-st > 900 {
-				fmt.Fprintf(os.Stderr, "WATCHDOG: run %d exceeds 900 s wall clock\n", runIdx.Load())
+			if st := runStart.Load(); st != 0 && time.Now().Unix()-st > int64(wd) {
+				fmt.Fprintf(os.Stderr, "WATCHDOG: run %d exceeds %d s wall clock\n", runIdx.Load(), wd)
 				os.Exit(3)
 			}
 		}
@@ -435,6 +439,17 @@ func replayMain(args []string) int {
 	}
 	if plan := Plans()[rf.Property]; plan != nil && plan.MemLimit > 0 {
 		setMemLimit(plan.MemLimit)
+	}
+	if plan := Plans()[rf.Property]; plan != nil {
+		wd := plan.WatchdogS
+		if wd == 0 {
+			wd = 900
+		}
+		go func() {
+			time.Sleep(time.Duration(wd) * time.Second)
+			fmt.Fprintf(os.Stderr, "WATCHDOG: replay exceeds %d s wall clock\n", wd)
+			os.Exit(4)
+		}()
 	}
 	opts := RunOpts{StopOn: rf.Property, KeepLog: true}
 	if plan := Plans()[rf.Property]; plan != nil {
